@@ -4,13 +4,16 @@ package service
 // executed symbolically by gosmt and natively in replays.
 
 import (
+	"context"
 	"errors"
 	"io"
 	"net"
 	"sync"
 	"time"
 
+	"github.com/Jigsaw-Code/outline-sdk/transport"
 	"github.com/Jigsaw-Code/outline-sdk/transport/shadowsocks"
+	onet "github.com/Jigsaw-Code/outline-ss-server/net"
 	"github.com/Jigsaw-Code/outline-ss-server/service/metrics"
 )
 
@@ -297,4 +300,13 @@ func verifNewWriterWithSalt(w io.Writer, key *shadowsocks.EncryptionKey, sg shad
 	sw := shadowsocks.NewWriter(w, key)
 	sw.SetSaltGenerator(sg)
 	return sw
+}
+
+type transportStreamConn = transport.StreamConn
+type contextContext = context.Context
+
+func contextBackground() context.Context { return context.Background() }
+
+func onetNewConnectionError(status, msg string, cause error) error {
+	return onet.NewConnectionError(status, msg, cause)
 }
